@@ -58,3 +58,26 @@ Proof. induction l as [|o l IH]; cbn [map]; constructor; [apply with_model_facts
 (** string arguments, before the facts are computed *)
 Definition sname (s : str) : name_info := mkName s None None None false.
 Definition sdata (s : str) : data_info := mkData s false false false None None.
+
+(** histories given by their strings: the facts of every call are recomputed *)
+Lemma known_map ops : forallb (fun x => negb (KnownFacts x)) (map with_model_facts ops) = forallb (fun x => negb (KnownFacts x)) ops.
+Proof. induction ops as [|o ops IH]; cbn [map forallb]; [reflexivity|]. rewrite with_model_facts_known, IH. reflexivity. Qed.
+
+Theorem step_refines_reachable_strings : forall init ops o ao,
+  WInv2 init -> WPrintable init -> forallb (fun x => negb (KnownFacts x)) ops = true -> KnownFacts o = false ->
+  Known13 (run init (map with_model_facts ops)) (with_model_facts o) = false -> abs_op o = Some ao ->
+  conforms_from (run init (map with_model_facts ops)) (with_model_facts o) ao.
+Proof.
+  intros init ops o ao H2 Hp Kh K K13 Ha. apply step_refines_reachable_model_facts; try assumption.
+  - apply map_model_facts.
+  - rewrite known_map. exact Kh.
+  - apply with_model_facts_model.
+  - rewrite with_model_facts_known. exact K.
+  - rewrite with_model_facts_abs. exact Ha.
+Qed.
+
+Theorem printable_reachable_strings : forall ops w,
+  WPrintable w -> forallb (fun x => negb (KnownFacts x)) ops = true -> WPrintable (run w (map with_model_facts ops)).
+Proof.
+  intros ops w Hw K. apply printable_reachable_model_facts; [exact Hw | apply map_model_facts | rewrite known_map; exact K].
+Qed.
